@@ -4403,6 +4403,15 @@ pub fn compile_with_module_info(
             "ast after macro expansion: {:?}",
             expr.to_expr().simple_print()
         );
+        if expr.has_staging_constructs() {
+            // e.g. the macro-level lambda made from `f(_)` in a program that is otherwise not
+            // staged: the MIR generator has no lowering for quoted code.
+            return Err(vec![Box::new(crate::utils::error::SimpleError {
+                message: "Quoted code (a backquote, `$` or a placeholder `_`) remains after macro expansion. A placeholder is meant for the right-hand side of `||>`."
+                    .to_string(),
+                span: expr.to_location(),
+            })]);
+        }
         let expr = parser::add_global_context(expr, file_path.clone().unwrap_or_default());
 
         // Re-type-check the stage-1 AST using a FRESH type inference
